@@ -24,7 +24,15 @@ pub enum Case {
     /// source=false: collinear targets with a thin source triangle (height `thin` metres)
     Collinear { source: bool, base: [i8; 3], dir: [i8; 3], k: [i8; 3], motion: IsoSpec, thin: f64 },
     Translation { p: [f64; 3], q: [f64; 3] },
-    Transformed { robot: RobotSpec, frame: IsoSpec, j: [f64; 6], prev: PrevGen },
+    Transformed {
+        robot: RobotSpec,
+        frame: IsoSpec,
+        j: [f64; 6],
+        prev: PrevGen,
+        /// call history: the same joints were first replayed on a frame around this other robot (result ignored)
+        #[serde(default)]
+        other: Option<RobotSpec>,
+    },
 }
 
 fn pt(v: &V3) -> Point3<f64> {
@@ -47,7 +55,7 @@ impl Property for C17 {
     }
     fn rule(&self) -> String {
         "point triples at scales 1e-2..1e2 m, up to 1e3 m from the origin, triangle height/base from 1 down to 1e-6, images under random rigid motions; one image point perturbed by |delta| in {0, 1 mm, 4.9 mm, 5.1 mm, 2 cm, random} \
-         (the oracle recomputes the three mutual-distance differences; 1e-9 guard around 5 mm); exactly collinear sources / targets from small-integer coordinates; Frame::translation; forward_transformed over robots x frames x joints x previous. \
+         (the oracle recomputes the three mutual-distance differences; 1e-9 guard around 5 mm); exactly collinear sources / targets from small-integer coordinates; Frame::translation; forward_transformed over robots x frames x joints x previous (one case in three after the same joints were replayed on a frame around another robot). \
          Non-trivial: an unperturbed triple whose conditioning bound is below 1e-3 (frame compared with the generating motion), a decided perturbed triple, a collinear triple, or a forward_transformed call with >= 1 answer."
             .into()
     }
@@ -84,7 +92,8 @@ impl Property for C17 {
         let coll = (any::<bool>(), small(), small(), small(), iso_strategy(3.0), prop_oneof![Just(1e-3), Just(1e-4), 1e-5..2e-3f64])
             .prop_map(|(source, base, dir, k, motion, thin)| Case::Collinear { source, base, dir, k, motion, thin });
         let tr = (vec3(10.0), vec3(10.0)).prop_map(|(p, q)| Case::Translation { p, q });
-        let ft = (robot_sane(DofChoice::Six), prop_oneof![iso_strategy(0.3), iso_strategy(2.0)], joints_uniform(), prev_2pi()).prop_map(|(robot, frame, j, prev)| Case::Transformed { robot, frame, j, prev });
+        let ft = (robot_sane(DofChoice::Six), prop_oneof![iso_strategy(0.3), iso_strategy(2.0)], joints_uniform(), prev_2pi(), prop_oneof![2 => Just(None), 1 => robot_sane(DofChoice::Six).prop_map(Some)])
+            .prop_map(|(robot, frame, j, prev, other)| Case::Transformed { robot, frame, j, prev, other });
         prop_oneof![6 => triple, 2 => coll, 1 => tr, 3 => ft].boxed()
     }
     fn check(&self, c: &Case, ctx: &mut Ctx) -> Res {
@@ -245,9 +254,14 @@ impl Property for C17 {
                 ctx.nontrivial();
                 Ok(())
             }
-            Case::Transformed { robot: r, frame, j, prev } => {
+            Case::Transformed { robot: r, frame, j, prev, other } => {
                 let fr = Frame { robot: Arc::new(opw(r)), frame: to_na(&frame.iso()) };
                 let p = prev.resolve(Some(*j));
+                if let Some(o) = other {
+                    let fo = Frame { robot: Arc::new(opw(o)), frame: to_na(&frame.iso()) };
+                    let _ = no_panic(|| fo.forward_transformed(j, &p)).map_err(|e| viol!("no panic", "forward_transformed (other robot): {}", e))?;
+                    ctx.class("transformed:history: the same joints replayed on another robot's frame first");
+                }
                 let (sols, pose) = no_panic(|| fr.forward_transformed(j, &p)).map_err(|e| viol!("no panic", "forward_transformed: {}", e))?;
                 let want = frame.iso().mul(&r.fk(j));
                 let got = from_na(&pose).ok_or_else(|| viol!("finite", "{:?}", pose))?;
